@@ -13,6 +13,11 @@ Obligations (all generated from the real source on every run):
 (d) BYTES DATAFLOW from the container read to the image object, content type from the extension table;
 (e) VIEWS COINCIDE in data_types.py (symbolic lists of symbolic lists, invariants over the yielded prefix).
 
+(f) OBSERVATION ACCESSORS (round 7, contracts/c14_access.py): get_metadata / get_content_type / get_bytes of DocxImage, PptxImage, XlsxImage,
+    OpenDocumentImage, EpubImage, PdfImage, RtfImage on abstract instances -- what the caller observes is what the extractor stored (number,
+    unit, positive size or None, content type, a stream over exactly the stored payload positioned at 0); content-type helpers
+    `xlsx._get_content_type` and ODF `guess_content_type` under contracts over a symbolic part name; table keys proved == LOWER(extension).
+
 Round 5: the content-type claim includes the body of the module's content-type helper (`_ct_helper_body`); a key expression of a pure shape
 outside EXT_SHAPES is executed on EXT_CORPUS (bounded stand-in); helpers are read after normalisation (dict literal / `**kwargs` / parameter
 copies); `[*a, *b]` over sequence-valued lists is a concatenation (c14_exec); os.path string functions are total (c14_sites.TOTAL_CALLS);
@@ -2440,20 +2445,36 @@ def lemmas():
 
 
 TRUSTED = ["zipfile member reads (ZipFile.read returns the stored member)", "pypdf image decoding (get_data of a DCT stream is the embedded file)",
-           "mimetypes.guess_type (ODF content types)", "io.BytesIO(x) holds exactly x",
+           "mimetypes table (ODF content types): `guess_content_type` is verified relative to the uninterpreted answer of mimetypes.guess_type; that the "
+           "table knows the raster extensions case-insensitively is validated natively (replay/C14.py::check_ct_helper), not proved",
+           "io.BytesIO at the extractors' store sites: BytesIO(x) holds exactly x (the accessors' stream model is listed under assumed models)",
            "AST dataflow back end (contracts/c14_sites.py, c14_flow.py): numbering discipline => numbers 1..n in append order by the loop invariant "
            "`counter == number of images appended`; only calls outside TOTAL_CALLS / proved-total repo functions are raise points",
            "program slices (c14_flow.py): nearest dominating definition; a shape the slicer does not follow is UNDECIDED"]
 ASSUMED_MODELS = ["str.split('/') = SEGS, '/'.join = JOINS (uninterpreted; replay validates the executable twin against CPython)",
-                  "int.from_bytes / struct.unpack on (clamped) slices", "bytes.startswith / == on byte strings"]
+                  "int.from_bytes / struct.unpack on (clamped) slices", "bytes.startswith / == on byte strings",
+                  "round 7 (accessor / helper contracts, contracts/c14_access.py): str.strip = STRIP, str.lower = LOWER (uninterpreted functions; "
+                  "validated natively on part names and content types of every casing)",
+                  "io.BytesIO stream model: a stream is (content, position); BytesIO(b) / BytesIO() / BytesIO(None) hold b / nothing at position 0; seek(n) sets "
+                  "the position; any other stream operation is outside the model (-> unknown); replay reads every accessor's stream twice",
+                  "data_types._odf_length_to_px AT ITS CALL SITE in OpenDocumentImage.get_metadata: functional view result == PX(argument) (determinism only); "
+                  "the function's own 96-dpi contract is VERIFIED on its body (odf_length) and is not weakened by this view",
+                  "ImageMetadata.__post_init__ / __setattr__ mirror the dataclass fields into the dict view (dict.__init__ is not modelled); "
+                  "replay/C14.py::check_accessors compares attribute view and dict view on its grid"]
 ASSUMPTIONS = ["JPEG: a stream that leaves the T.81 marker chain before a frame header (non-FF byte at a marker position, standalone marker, "
                "EOI/SOS first, truncated frame header) declares no size in the sense of the statement: result unconstrained there",
                "BMP: signed little-endian width / height at 18 / 22 as in the property's format clause (BITMAPINFOHEADER family)"]
 BOUNDED = ["each recorded finding: behaviour OUTSIDE its exclusion is checked by a native sweep of 12 generated documents (replay/C14.py::exclusion_sweep), not proved",
            "refutations: every solver model is re-validated natively (grid of 8 base dirs x 15 targets for resolvers; generated PNG/GIF/BMP/JPEG files incl. fill "
            "bytes, 1-3 leading segments and 6000 random marker sequences for the sniffers; <= 3 elements x <= 2 images for the data_types views)",
-           "content-type obligations are syntactic (lookup of the lower-cased extension in the literal table); str.lower / mimetypes are not modelled; "
-           "a key expression of another pure shape is executed by CPython on EXT_CORPUS (13 part names) and counted as bounded-ok, never as proved"]
+           "content-type obligations at the extractor sites stay dataflow claims (content_type= is the table image of a key computed from the part name), but "
+           "since round 7 the KEY is proved == LOWER(text after the last dot) over a symbolic part name where the engine's exact string models apply "
+           "(rsplit(sep, 1), rpartition, `in`, conditional expressions) and the helpers `_get_content_type` / `guess_content_type` are under contracts "
+           "verified on their bodies; `n.lower().rsplit('.', 1)[-1]` (lower first) is still accepted by shape; a key expression of another pure shape "
+           "(posixpath.splitext ...) is executed by CPython on EXT_CORPUS (13 part names) and counted as bounded-ok, never as proved",
+           "accessor / helper obligations: a solver refutation or a body outside the subset counts only when the native grid reproduces it "
+           "(replay/C14.py::check_accessors: 2 numbers x units x 4-6 sizes squared x 2 content types, payloads None / empty / 264 bytes with the stored "
+           "stream left at 0 / 5 / end; check_ct_helper: 5 extensions x 3 casings x 7 stems)"]
 
 
 def known_findings(kf, violations, repo, tier):
